@@ -58,6 +58,14 @@ def run : Runner
     -- the model's observation is by construction "fresh computation from the wire message + stable identities",
     -- i.e. exactly what C16 prescribes
     pure { model := s!"EXT {ext} RES {if toks.isEmpty then "-" else " ".intercalate toks} RE {re}", prop := "spec" }
+  -- blkbig: the block is too large to transcribe; the wire results arrive as digests and the accessors must
+  -- reproduce them (TxLoc, Bytes, last transaction with its index, out-of-range error one past the end)
+  | "blkbig", [_, _, ntx, _, _], impl => do
+    let ntx ← nat? ntx
+    let (ext, _) ← C10.splitExt impl
+    match ext.splitOn " " with
+    | [ld, bd, last] => pure { model := s!"EXT {ext} RES {ld} {bd} {last}:{ntx - 1} oor", prop := "spec" }
+    | _ => none
   | "txw", [_, _, _], impl => do
     let (ext, _) ← C10.splitExt impl
     pure { model := s!"EXT {ext} RES {ext} 1 -1 {ext} -1", prop := "spec" }
